@@ -68,6 +68,24 @@ fn main() {
 
 fn real_main() {
 	let args: Vec<String> = std::env::args().collect();
+	if args.len() >= 3 && args[1] == "crumb-show" {
+		// the case a killed run was in: text, then the input as hex
+		match util::crumb::load(&args[2]) {
+			Some((text, data)) => println!("{text}\n{}", util::hex(&data)),
+			None => std::process::exit(3),
+		}
+		return;
+	}
+	if args.len() >= 3 && args[1] == "crumb-replay" {
+		// runs that case alone; exit 0 = it ran to an end, 3 = not of a replayable form
+		let Some((text, data)) = util::crumb::load(&args[2]) else { std::process::exit(3) };
+		std::panic::set_hook(Box::new(|_| {}));
+		match xtapi::replay_crumb(&text, &data).map(|o| o.describe()).or_else(|| props::c17::replay_crumb(&text, &data)) {
+			Some(o) => println!("{}", o.chars().take(300).collect::<String>()),
+			None => std::process::exit(3),
+		}
+		return;
+	}
 	if args.len() >= 6 && args[1] == "run" {
 		// Panics inside xt are caught per case; keep the default hook quiet.
 		std::panic::set_hook(Box::new(|_| {}));
@@ -75,6 +93,8 @@ fn real_main() {
 		let thorough = args[3] == "thorough";
 		let seed: u64 = args[4].parse().expect("seed");
 		let dir = args[5].as_str();
+		let _ = std::fs::create_dir_all(dir);
+		util::crumb::init(&format!("{dir}/crumb.bin"));
 		let mut out = Out::new();
 		let mut rng = Rng::new(seed);
 		match prop {
@@ -127,6 +147,8 @@ fn real_main() {
 			"C03" => {
 				engines::chunker::run(&mut out, &mut rng.fork(), thorough);
 				props::c03::run(&mut out, &mut rng.fork(), thorough);
+				// inputs that are not regular files, between regular ones, in argument order
+				props::cli_extra::special_file_inputs(&mut out);
 			}
 			"C08" => {
 				props::c08::run(&mut out, &mut rng.fork(), thorough);
@@ -173,11 +195,14 @@ fn real_main() {
 				props::cli_extra::small_output_to_full_device(&mut out, "C13");
 				props::cli_extra::c13_repeated_options(&mut out);
 				props::cli_extra::c13_unreadable_operand(&mut out);
+				props::cli_extra::c13_non_utf8_arguments(&mut out);
+				props::cli_extra::special_file_inputs(&mut out);
 			}
 			"C14" => {
 				props::c14::run(&mut out, &mut rng.fork(), thorough);
 				props::cli_extra::c14_stdin_at_offset(&mut out, &mut rng.fork(), thorough);
 				props::cli_extra::c14_unmappable_regular_file(&mut out);
+				props::cli_extra::special_file_inputs(&mut out);
 			}
 			"C15" => {
 				props::c15::run(&mut out, &mut rng.fork(), thorough);
